@@ -1129,6 +1129,82 @@ fn gen_richerror(root: &str) -> R<String> {
     Ok(o)
 }
 
+// ---- numeric / string constants of the codec and of tonic-web (Gen/ConstTables.v) ---------
+fn eval_const(e: &syn::Expr) -> R<u128> {
+    // like `eval`, plus `usize::MAX` (64-bit target) and `std::mem::size_of::<uN>()`
+    match e {
+        syn::Expr::Binary(b) => {
+            let l = eval_const(&b.left)?;
+            let r = eval_const(&b.right)?;
+            match b.op {
+                syn::BinOp::Mul(_) => Ok(l * r),
+                syn::BinOp::Add(_) => Ok(l + r),
+                syn::BinOp::Sub(_) => Ok(l - r),
+                syn::BinOp::Shl(_) => Ok(l << r),
+                _ => Err(format!("unsupported operator in {}", ts(e))),
+            }
+        }
+        syn::Expr::Paren(p) => eval_const(&p.expr),
+        syn::Expr::Cast(c) => eval_const(&c.expr),
+        _ => {
+            let t = ts(e);
+            match t.as_str() {
+                "usize::MAX" | "u64::MAX" => Ok(u64::MAX as u128),
+                "u32::MAX" => Ok(u32::MAX as u128),
+                "std::mem::size_of::<u8>()" => Ok(1),
+                "std::mem::size_of::<u32>()" => Ok(4),
+                _ => eval(e, &BTreeMap::new()),
+            }
+        }
+    }
+}
+fn gen_consts(root: &str) -> R<String> {
+    let mut o = String::new();
+    writeln!(o, "(* GENERATED by rs2v from tonic/src/codec/mod.rs, tonic/src/metadata/mod.rs and tonic-web/src/call.rs - do not edit *)").unwrap();
+    writeln!(o, "From Coq Require Import List NArith.\nImport ListNotations.\nOpen Scope N_scope.\n").unwrap();
+    let f = parse(root, "tonic/src/codec/mod.rs")?;
+    for (c, n) in [
+        ("DEFAULT_CODEC_BUFFER_SIZE", "codec_default_buffer_size"),
+        ("DEFAULT_YIELD_THRESHOLD", "codec_default_yield_threshold"),
+        ("HEADER_SIZE", "codec_header_size"),
+        ("DEFAULT_MAX_RECV_MESSAGE_SIZE", "codec_default_max_recv_message_size"),
+        ("DEFAULT_MAX_SEND_MESSAGE_SIZE", "codec_default_max_send_message_size"),
+    ] {
+        let v = eval_const(&find_const(&f, c)?).map_err(|e| format!("{}: {}", c, e))?;
+        writeln!(o, "Definition {} : N := {}.", n, v).unwrap();
+    }
+    let f = parse(root, "tonic/src/metadata/mod.rs")?;
+    let e = ts(&find_const(&f, "GRPC_CONTENT_TYPE")?);
+    if !e.starts_with("HeaderValue::from_static(") { return Err(format!("GRPC_CONTENT_TYPE: {}", e)); }
+    writeln!(o, "Definition grpc_content_type : list N := {}.", coq_bytes(str_lit(&e)?.as_bytes())).unwrap();
+    let f = parse(root, "tonic-web/src/call.rs")?;
+    for (c, n) in [("GRPC_HEADER_SIZE", "web_grpc_header_size"), ("BUFFER_SIZE", "web_buffer_size"),
+                   ("FRAME_HEADER_SIZE", "web_frame_header_size"), ("GRPC_WEB_TRAILERS_BIT", "web_trailers_bit")] {
+        let v = eval_const(&find_const(&f, c)?).map_err(|e| format!("{}: {}", c, e))?;
+        writeln!(o, "Definition {} : N := {}.", n, v).unwrap();
+    }
+    // the content-type constants live in `mod content_types`
+    struct ModConsts { found: Vec<(String, String)> }
+    impl<'ast> Visit<'ast> for ModConsts {
+        fn visit_item_const(&mut self, i: &'ast syn::ItemConst) {
+            self.found.push((i.ident.to_string(), ts(&*i.expr)));
+        }
+        fn visit_item_mod(&mut self, i: &'ast syn::ItemMod) {
+            if i.attrs.iter().any(|a| ts(a).contains("cfg(test)")) { return; }
+            syn::visit::visit_item_mod(self, i);
+        }
+    }
+    let mut mc = ModConsts { found: vec![] };
+    mc.visit_file(&f);
+    for (c, n) in [("GRPC_WEB", "web_ct_grpc_web"), ("GRPC_WEB_PROTO", "web_ct_grpc_web_proto"),
+                   ("GRPC_WEB_TEXT", "web_ct_grpc_web_text"), ("GRPC_WEB_TEXT_PROTO", "web_ct_grpc_web_text_proto")] {
+        let hits: Vec<_> = mc.found.iter().filter(|(k, _)| k == c).collect();
+        if hits.len() != 1 { return Err(format!("const {}: found {} definitions", c, hits.len())); }
+        writeln!(o, "Definition {} : list N := {}.", n, coq_bytes(str_lit(&hits[0].1)?.as_bytes())).unwrap();
+    }
+    Ok(o)
+}
+
 fn main() {
     let a: Vec<String> = std::env::args().collect();
     if a.len() != 3 {
@@ -1137,7 +1213,7 @@ fn main() {
     }
     let (root, out) = (&a[1], &a[2]);
     std::fs::create_dir_all(out).unwrap();
-    let gens: Vec<(&str, fn(&str) -> R<String>)> = vec![("StatusTables.v", gen_status), ("CompressionTables.v", gen_compression), ("TimeoutTables.v", gen_timeout), ("RichErrorTables.v", gen_richerror)];
+    let gens: Vec<(&str, fn(&str) -> R<String>)> = vec![("StatusTables.v", gen_status), ("CompressionTables.v", gen_compression), ("TimeoutTables.v", gen_timeout), ("RichErrorTables.v", gen_richerror), ("ConstTables.v", gen_consts)];
     let mut failed = false;
     for (name, g) in gens {
         match g(root) {
